@@ -63,6 +63,18 @@ def materialise(case, seed, which=1):
     return d
 
 
+def preload(moment, has_control):
+    """load a DIFFERENT data set first (7 rows) and evaluate gamma once: a later load_data must start from scratch"""
+    Xo = np.array([[j, j % 2] for j in range(7)], dtype=float)
+    yo = np.array([0, 1, 1, 0, 1, 0, 1])
+    kw = {"sensitive_features": ["m_one", "z_two", "z_two", "m_one", "z_two", "m_one", "a_three"]}
+    if has_control:
+        kw["control_features"] = ["q1", "c2", "q1", "c2", "q1", "q1", "c2"]
+    moment.load_data(Xo, yo, **kw)
+    moment.gamma(lambda X: np.zeros(len(X)))
+    return moment
+
+
 def load(moment, d, has_control):
     kw = {"sensitive_features": d["g"]}
     if has_control:
